@@ -174,7 +174,13 @@ fn path_to_uri(path: &Path) -> Option<Uri> {
 /// `line_number`. LSP positions count UTF-16 code units within the
 /// line.
 fn offset_to_lsp_position(src: &str, offset: usize, line_number: usize) -> Position {
-    let offset = offset.min(src.len());
+    // An offset taken from another version of the file (an imported
+    // file read from disk, say) may be past the end of `src` or inside
+    // one of its characters.
+    let mut offset = offset.min(src.len());
+    while !src.is_char_boundary(offset) {
+        offset -= 1;
+    }
     let line_start = src[..offset].rfind('\n').map_or(0, |i| i + 1);
     let character = src[line_start..offset].encode_utf16().count();
 
